@@ -117,7 +117,13 @@ func Harness_C13_retryLoop() {
 			case 1:
 				secs = vI64("retry-after-seconds")
 				// every int64: also values too long for a time.Duration, and negative ones (not a delay: as good as no Retry-After)
-				if neg := vChoice("retry-after-negative", 4); neg > 0 {
+				// (sequences of three responses -- thorough tier -- use non-negative values only: the
+				// handling of a negative value does not depend on the position in the sequence)
+				negChoices := 4
+				if k >= 2 {
+					negChoices = 1
+				}
+				if neg := vChoice("retry-after-negative", negChoices); neg > 0 {
 					// negative values are enumerated (small, just past the Duration range, one that wraps around to +1h)
 					secs = []int64{0, -1, -9223372037, -9223372036854772208}[neg]
 					ra = []string{"", "-1", "-9223372037", "-9223372036854772208"}[neg]
@@ -138,7 +144,9 @@ func Harness_C13_retryLoop() {
 	transportErr := 0
 	for _, o := range outcomes {
 		if o == oTransport {
-			transportErr = vChoice("transport-error-kind", 3)
+			if k < 2 { // (likewise: self-reporting transport errors in sequences of up to two responses)
+				transportErr = vChoice("transport-error-kind", 3)
+			}
 			break
 		}
 	}
